@@ -332,6 +332,7 @@ pub fn property() -> Property {
                 signature: no_signature,
                 essential: &["wrapped_u64_boundary", "reset", "finish", "len_saturating", "hidden_target"],
                 workers: w,
+                decode: None,
             }),
             Box::new(Gen::<ConcCase> {
                 name: "threads",
@@ -342,6 +343,7 @@ pub fn property() -> Property {
                 signature: no_signature,
                 essential: &["two_or_more_threads", "inc_and_dec_mixed", "clones", "concurrent_reader"],
                 workers: 2,
+                decode: None,
             }),
         ],
     }
